@@ -82,6 +82,9 @@ def rule_decline(ctx, rep):
 
 def run(ctx, rep):
     rule_unwrap(ctx, rep)
+    from . import c03
+
+    c03.rule_gate_def(ctx, rep)  # exactly-one-winner under races rests on the Acquire gate (and on C02)
 
 
 def main(argv):
